@@ -670,6 +670,7 @@ func (w *World) onSend(n *Node, recipients []primitives.MemberId, raw *interface
 	n.obs.sends = append(n.obs.sends, rec)
 	w.sent = append(w.sent, rec)
 	w.ev("send n%d -> %v : %s #%s", n.idx, rec.to, m.Short(), shortHash(c.Content))
+	w.probeProofViews(m, "honest")
 	w.onSendObserved(n, rec)
 	if w.cfg.SendErrPermille > 0 && !w.stabilised && !w.recovering && w.ch.Chance("send-err", w.cfg.SendErrPermille) {
 		w.stats.Fault("send-error")
@@ -682,6 +683,25 @@ func (w *World) onSend(n *Node, recipients []primitives.MemberId, raw *interface
 		w.enqueue(&Flight{from: n.idx, to: to, raw: c, sent: rec, honest: true})
 	}
 	return nil
+}
+
+// probeProofViews: reach probe - a NEW_VIEW whose votes carry prepared proofs of two / three or more different views.
+func (w *World) probeProofViews(m *Msg, who string) {
+	if m == nil || m.Kind != KNV {
+		return
+	}
+	views := map[uint64]bool{}
+	for _, vt := range m.Votes {
+		if vt.Proof.Present {
+			views[vt.Proof.PP.V] = true
+		}
+	}
+	switch {
+	case len(views) >= 3:
+		w.probe("new-view-with-proofs-of-3+-views/" + who)
+	case len(views) == 2:
+		w.probe("new-view-with-proofs-of-2-views/" + who)
+	}
 }
 
 func (w *World) enqueue(f *Flight) {
@@ -782,6 +802,7 @@ func RunBubble(t *testing.T, ch *Chooser, cfg *RunConfig, tracing bool, scen Sce
 		verifhook.AtHVFn = w.atHV
 		verifhook.ControllerFor = w.controllerFor
 		verifhook.YieldFn = w.atYield
+		blockRefTimeMode = cfg.RefTimeMode
 		verifhook.HeldFn = w.atHeld
 		func() {
 			defer func() {
